@@ -17,7 +17,8 @@ EXPLANATION = (
     "from source on ~150 operator skeletons over opaque leaves (every connective, every connective under "
     "a negation and nested once, quantifiers in every position, shadowing binders); the returned term is "
     "equivalent to the input by complete truth table (bound Boolean variables enumerated) and has the "
-    "advertised shape (R2).")
+    "advertised shape (R2).  propagate_toplevel also under both substituter classes an environment can be configured with, with and "
+    "without the final simplification, on formulas whose propagated variable is bound again by a quantifier and next to quantifier alternations.")
 NOT_DECIDED = ["TimesDistributor beyond its term menu (values in a small domain); propagate_toplevel beyond the skeletons of R2 (Int values in a small domain)",
                "alpha-renaming correctness of prenex beyond the reserved-set discipline"]
 
